@@ -76,14 +76,15 @@ MenuDryEnum == Installs({"cH"}, B, F, F, F, B) \cup Upgrades({"cI"}, F, F, {0, 1
                \cup Rollbacks({0}, {0}, F, F, B) \cup Uninstalls(B, F, B)
 MenuLedgerEnum == Installs({"cA"}, B, F, F, F, F) \cup Upgrades({"cB"}, F, F, {0, 2}, F, F, F) \cup Rollbacks({0, 1}, {0}, F, F, F)
                   \cup Uninstalls(B, F, F) \cup UpInstalls({"cB"}, F, F, F, F, F)
-MenuHooksEnum == Installs({"cH", "cJ"}, F, F, B, F, F) \cup Upgrades({"cI", "cJ"}, F, F, {0}, F, F, F) \cup Rollbacks({0}, {0}, F, F, F)
+MenuHooksEnum == {U("test", "none")} \cup Installs({"cH", "cJ"}, F, F, B, F, F) \cup Upgrades({"cI", "cJ"}, F, F, {0}, F, F, F) \cup Rollbacks({0}, {0}, F, F, F)
                  \cup Uninstalls(B, F, F)
 MenuOwnEnum == Installs({"cA", "cB"}, B, F, F, B, F) \cup Upgrades({"cB", "cL"}, F, F, {0}, F, B, F) \cup Uninstalls(F, F, F)
 \* ownership family (C07)
 MenuOwn == Installs({"cA", "cB", "cL"}, B, F, F, B, F) \cup Upgrades({"cB", "cC", "cL", "cA"}, F, F, {0}, F, B, F)
            \cup Uninstalls(F, F, F) \cup Rollbacks({0}, {0}, F, F, F)
 \* hooks family (C12)
-MenuHooks == Installs({"cH", "cI", "cJ"}, B, B, B, F, F) \cup Upgrades({"cH", "cI", "cJ"}, B, F, {0}, B, F, F)
+Tests == {U("test", "none")}
+MenuHooks == Tests \cup Installs({"cH", "cI", "cJ"}, B, B, B, F, F) \cup Upgrades({"cH", "cI", "cJ"}, B, F, {0}, B, F, F)
              \cup Rollbacks({0, 1}, {0}, B, F, F) \cup Uninstalls(B, B, F)
 \* concurrency family (C09): plain installs and upgrades racing on one release name
 MenuConc == Installs({"cA", "cB"}, F, F, F, F, F) \cup Upgrades({"cB", "cC"}, F, F, {0}, F, F, F)
@@ -107,7 +108,7 @@ XDry == Installs({"cH"}, B, F, F, F, B) \cup CRDInstalls(F, B, B, B) \cup UpInst
         \cup Rollbacks({0}, {0, 1}, F, F, B) \cup Uninstalls(B, F, B)
         \cup {[U("install", "cH") EXCEPT !.dry = TRUE, !.clientOnly = TRUE]}
 XOwn == Installs({"cA", "cB"}, F, F, F, B, F) \cup Upgrades({"cB", "cL"}, F, F, {0}, F, B, F)
-XHooks == Installs({"cH", "cI", "cJ"}, F, F, B, F, F) \cup Upgrades({"cI", "cH", "cJ"}, F, F, {0}, F, F, F)
+XHooks == {U("test", "none")} \cup Installs({"cH", "cI", "cJ"}, F, F, B, F, F) \cup Upgrades({"cI", "cH", "cJ"}, F, F, {0}, F, F, F)
           \cup Rollbacks({0}, {0}, F, F, F) \cup Uninstalls(B, F, F)
 
 EditsNone == {}
@@ -201,7 +202,7 @@ HookFaultM(p) == \E i \in DOMAIN op[p].log : op[p].log[i].inj /\ ~(op[p].log[i].
 DefsM(p) ==
   CASE op[p].u.kind \in {"install", "upgrade"} -> ChartHooks(op[p].u.chart)
     [] op[p].u.kind = "rollback" -> op[p].newrec.hooks
-    [] op[p].u.kind = "uninstall" -> op[p].hdefs
+    [] op[p].u.kind \in {"uninstall", "test"} -> op[p].hdefs
     [] OTHER -> <<>>
 ManIdsM(p) ==
   CASE op[p].u.kind \in {"install", "upgrade"} -> DOMAIN ChartMan(op[p].u.chart)
